@@ -158,3 +158,27 @@ Example C08_nonvacuous :
   /\ C08_ok w_valid (c08_model w_valid) = true.
 Proof. exact final_C08_nonvacuous. Qed.
 Print Assumptions C08_nonvacuous.
+
+(** non-vacuity of C08_sound_sharing: rows 0 and 2 of the example agree on N
+    (not on NX) and expand a text that uses only N identically *)
+Example C08_sound_sharing_nonvacuous :
+  let ps := sp_params w_valid in
+  let x := Str.s "cat $(N) $(N.label)" in
+  params_ok ps = true /\ agree ps [Str.s "N"] 0 2 = true /\ agree ps [Str.s "NX"] 0 2 = false
+  /\ no_token_left ps 0 x = true
+  /\ apply_row ps 0 x = Str.s "cat 1 N.1" /\ apply_row ps 2 x = Str.s "cat 1 N.1".
+Proof. exact final_C08_sound_sharing_nonvacuous. Qed.
+Print Assumptions C08_sound_sharing_nonvacuous.
+
+(** the hypothesis [no_token_left] of C08_sound_sharing cannot be dropped: a
+    value that is itself token text (finding K4b, recorded under C09) makes two
+    rows that agree on every parameter the text uses expand it differently *)
+Example C08_sound_sharing_needs_hyp :
+  let ps := w_k4b_params in
+  let x := Str.s "$(A)" in
+  params_ok ps = true /\ agree ps [Str.s "A"] 0 1 = true
+  /\ (forall k, In k (keys_of ps) -> uses_key k x = true -> In k [Str.s "A"])
+  /\ no_token_left ps 0 x = false
+  /\ apply_row ps 0 x <> apply_row ps 1 x.
+Proof. exact final_C08_sound_sharing_needs_hyp. Qed.
+Print Assumptions C08_sound_sharing_needs_hyp.
